@@ -40,6 +40,8 @@ pub fn div_nxm_normalized(numerator: &mut [u64], divisor: &[u64]) {
 
         // Overflow case
         if unlikely(n21 == d) {
+            #[cfg(recmo_uint_verif)]
+            crate::__verif::hit(crate::__verif::KNUTHN_FORCED);
             let q = u64::MAX;
             let _carry = submul_nx1(&mut numerator[j..j + n], divisor, q);
             numerator[j + n] = q;
@@ -50,6 +52,8 @@ pub fn div_nxm_normalized(numerator: &mut [u64], divisor: &[u64]) {
         // By using 3x2 limbs we get a quotient that is very likely correct
         // and at most one too large. In the process we also get the first
         // two remainder limbs.
+        #[cfg(recmo_uint_verif)]
+        crate::__verif::hit(crate::__verif::KNUTHN_STEP);
         let (mut q, r) = div_3x2(n21, n0, d, v);
 
         // Subtract the quotient times the divisor from the remainder.
@@ -63,6 +67,8 @@ pub fn div_nxm_normalized(numerator: &mut [u64], divisor: &[u64]) {
         // If we have a carry then the quotient was one too large.
         // We correct by decrementing the quotient and adding one divisor back.
         if unlikely(borrow) {
+            #[cfg(recmo_uint_verif)]
+            crate::__verif::hit(crate::__verif::KNUTHN_ADDBACK);
             q = q.wrapping_sub(1);
             let carry = adc_n(&mut numerator[j..j + n], &divisor[..n], 0);
             // Expect carry because we flip sign back to positive.
@@ -140,11 +146,17 @@ pub fn div_nxm(numerator: &mut [u64], divisor: &mut [u64]) {
             // two remainder limbs.
             let (mut q, r) = div_3x2(n21, n0, d, v);
 
+            #[cfg(recmo_uint_verif)]
+            if q == 0 {
+                crate::__verif::hit(crate::__verif::KNUTH_QZERO);
+            }
             if q != 0 {
                 // Subtract the quotient times the divisor from the remainder.
                 // We already have the highest 128 bit, so we can reduce the
                 // computation. We still need to carry propagate into these limbs.
                 let borrow = if shift == 0 {
+                    #[cfg(recmo_uint_verif)]
+                    crate::__verif::hit(crate::__verif::KNUTH_STEP_NOSHIFT);
                     let borrow = submul_nx1(&mut numerator[j..j + n - 2], &divisor[..n - 2], q);
                     let (r, borrow) = r.overflowing_sub(u128::from(borrow));
                     numerator[j + n - 2] = r.low();
@@ -154,6 +166,8 @@ pub fn div_nxm(numerator: &mut [u64], divisor: &mut [u64]) {
                     // OPT: Can we re-use `r` here somehow? The problem is we can not just
                     // shift the `r` or `borrow` because we need to accurately reproduce
                     // the remainder and carry in the middle of a limb.
+                    #[cfg(recmo_uint_verif)]
+                    crate::__verif::hit(crate::__verif::KNUTH_STEP_SHIFT);
                     let borrow = submul_nx1(&mut numerator[j..j + n], divisor, q);
                     let n2 = numerator.get(j + n).copied().unwrap_or_default();
                     borrow != n2
@@ -162,6 +176,12 @@ pub fn div_nxm(numerator: &mut [u64], divisor: &mut [u64]) {
                 // If we have a carry then the quotient was one too large.
                 // We correct by decrementing the quotient and adding one divisor back.
                 if unlikely(borrow) {
+                    #[cfg(recmo_uint_verif)]
+                    crate::__verif::hit(if shift == 0 {
+                        crate::__verif::KNUTH_ADDBACK_NOSHIFT
+                    } else {
+                        crate::__verif::KNUTH_ADDBACK_SHIFT
+                    });
                     q = q.wrapping_sub(1);
                     let carry = adc_n(&mut numerator[j..j + n], &divisor[..n], 0);
                     // Expect carry because we flip sign back to positive.
@@ -171,6 +191,8 @@ pub fn div_nxm(numerator: &mut [u64], divisor: &mut [u64]) {
             q
         } else {
             // Overflow case
+            #[cfg(recmo_uint_verif)]
+            crate::__verif::hit(crate::__verif::KNUTH_FORCED);
             let q = u64::MAX;
             let _carry = submul_nx1(&mut numerator[j..j + n], divisor, q);
             q
@@ -187,6 +209,10 @@ pub fn div_nxm(numerator: &mut [u64], divisor: &mut [u64]) {
     // Copy remainder to `divisor` and `quotient` to numerator.
     divisor.copy_from_slice(&numerator[..n]);
     numerator.copy_within(n.., 0);
+    #[cfg(recmo_uint_verif)]
+    if q_high != 0 {
+        crate::__verif::hit(crate::__verif::KNUTH_QHIGH_NONZERO);
+    }
     numerator[m] = q_high;
     numerator[m + 1..].fill(0);
 }
